@@ -309,67 +309,84 @@ func runCheck(ck *Check, tier string, seed int64, replay string, keepEvidence bo
 		}
 	}
 	pkgs := append([]string{ck.Pkg}, ck.Pkgs...)
-	args := []string{"test", "-modfile=" + modfile, "-overlay=" + overlay, "-tags", "verif", "-vet=off", "-count=1",
-		"-run", "^TestVerif_" + ck.ID + "$", "-timeout", fmt.Sprintf("%ds", timeout), "-v"}
-	if race {
-		args = append(args, "-race")
-	}
-	args = append(args, ck.Extra...)
-	args = append(args, pkgs...)
-	cmd := exec.Command("go", args...)
-	cmd.Dir = repoDir
-	env := []string{}
-	for _, e := range os.Environ() {
-		if strings.HasPrefix(e, "GOFLAGS=") || strings.HasPrefix(e, "GOPROXY=") || strings.HasPrefix(e, "GOTOOLCHAIN=") ||
-			strings.HasPrefix(e, "GOSUMDB=") || (strings.HasPrefix(e, "VERIF_") && !strings.HasPrefix(e, "VERIF_DEBUG=")) || strings.HasPrefix(e, "GORACE=") {
-			continue
-		}
-		env = append(env, e)
-	}
-	env = append(env, "GOFLAGS=-mod=mod", "GOPROXY=off",
-		"VERIF_SEED="+strconv.FormatInt(seed, 10), "VERIF_TIER="+tier, "VERIF_OUT="+outDir,
-		"VERIF_KNOWN="+filepath.Join(verifDir, "known_findings.txt"),
-		"VERIF_DIR="+verifDir,
-		"GORACE=halt_on_error=1")
-	if replay != "" {
-		abs, _ := filepath.Abs(replay)
-		env = append(env, "VERIF_REPLAY="+abs)
-	}
-	if len(fpMissing) > 0 {
-		env = append(env, "VERIF_FAILPOINT_MISSING="+strings.Join(fpMissing, ";"))
-	}
-	env = append(env, ck.Env...)
-	cmd.Env = env
 	logPath := filepath.Join(outDir, "child.log")
-	lf, _ := os.Create(logPath)
-	cmd.Stdout = lf
-	cmd.Stderr = lf
-	cmd.SysProcAttr = &syscall.SysProcAttr{Setpgid: true}
-	// outer watchdog (go test's own -timeout normally fires first and dumps goroutines)
-	done := make(chan error, 1)
-	if err := cmd.Start(); err != nil {
-		fatal(2, "cannot start go: %v", err)
-	}
-	go func() { done <- cmd.Wait() }()
-	var werr error
-	watchdog := false
-	select {
-	case werr = <-done:
-	case <-time.After(time.Duration(timeout+120) * time.Second):
-		watchdog = true
-		syscall.Kill(-cmd.Process.Pid, syscall.SIGKILL)
-		werr = <-done
-	}
-	lf.Close()
-	logb, _ := os.ReadFile(logPath)
-	logs := string(logb)
-
+	var logs string
 	var res Result
-	haveRes := false
-	if b, err := os.ReadFile(filepath.Join(outDir, "result.json")); err == nil {
-		if json.Unmarshal(b, &res) == nil && res.Finished {
-			haveRes = true
+	var haveRes, watchdog bool
+	var werr error
+	execute := func(race bool) {
+		os.Remove(filepath.Join(outDir, "result.json"))
+		res = Result{}
+		haveRes, watchdog, werr = false, false, nil
+		args := []string{"test", "-modfile=" + modfile, "-overlay=" + overlay, "-tags", "verif", "-vet=off", "-count=1",
+			"-run", "^TestVerif_" + ck.ID + "$", "-timeout", fmt.Sprintf("%ds", timeout), "-v"}
+		if race {
+			args = append(args, "-race")
 		}
+		args = append(args, ck.Extra...)
+		args = append(args, pkgs...)
+		cmd := exec.Command("go", args...)
+		cmd.Dir = repoDir
+		env := []string{}
+		for _, e := range os.Environ() {
+			if strings.HasPrefix(e, "GOFLAGS=") || strings.HasPrefix(e, "GOPROXY=") || strings.HasPrefix(e, "GOTOOLCHAIN=") ||
+				strings.HasPrefix(e, "GOSUMDB=") || (strings.HasPrefix(e, "VERIF_") && !strings.HasPrefix(e, "VERIF_DEBUG=")) || strings.HasPrefix(e, "GORACE=") {
+				continue
+			}
+			env = append(env, e)
+		}
+		env = append(env, "GOFLAGS=-mod=mod", "GOPROXY=off",
+			"VERIF_SEED="+strconv.FormatInt(seed, 10), "VERIF_TIER="+tier, "VERIF_OUT="+outDir,
+			"VERIF_KNOWN="+filepath.Join(verifDir, "known_findings.txt"),
+			"VERIF_DIR="+verifDir,
+			"GORACE=halt_on_error=1")
+		if replay != "" {
+			abs, _ := filepath.Abs(replay)
+			env = append(env, "VERIF_REPLAY="+abs)
+		}
+		if len(fpMissing) > 0 {
+			env = append(env, "VERIF_FAILPOINT_MISSING="+strings.Join(fpMissing, ";"))
+		}
+		env = append(env, ck.Env...)
+		cmd.Env = env
+		lf, _ := os.Create(logPath)
+		cmd.Stdout = lf
+		cmd.Stderr = lf
+		cmd.SysProcAttr = &syscall.SysProcAttr{Setpgid: true}
+		// outer watchdog (go test's own -timeout normally fires first and dumps goroutines)
+		done := make(chan error, 1)
+		if err := cmd.Start(); err != nil {
+			fatal(2, "cannot start go: %v", err)
+		}
+		go func() { done <- cmd.Wait() }()
+		select {
+		case werr = <-done:
+		case <-time.After(time.Duration(timeout+120) * time.Second):
+			watchdog = true
+			syscall.Kill(-cmd.Process.Pid, syscall.SIGKILL)
+			werr = <-done
+		}
+		lf.Close()
+		logb, _ := os.ReadFile(logPath)
+		logs = string(logb)
+
+		if b, err := os.ReadFile(filepath.Join(outDir, "result.json")); err == nil {
+			if json.Unmarshal(b, &res) == nil && res.Finished {
+				haveRes = true
+			}
+		}
+
+	}
+	execute(race)
+	raceNote := ""
+	if race && !haveRes && toolchainCrash(logs) {
+		// The race-detector runtime itself died (ThreadSanitizer CHECK failure, or a fatal
+		// error with no golang.org/x/net frame on any stack): that says nothing about the
+		// property. Keep the log and run the same cases again without -race.
+		os.Rename(logPath, filepath.Join(outDir, "child.race-crash.log"))
+		raceNote = "the -race run died inside the Go/ThreadSanitizer runtime (log kept as child.race-crash.log); the verdict comes from a rerun without -race"
+		race = false
+		execute(false)
 	}
 
 	verdict := 0 // 0 held, 1 violation, 2 inconclusive
@@ -407,7 +424,9 @@ func runCheck(ck *Check, tier string, seed int64, replay string, keepEvidence bo
 			// race report with halt_on_error. Attribute it using the log + breadcrumb.
 			key, harnessOnly := crashKey(logs)
 			rp := crashReplay(ck.ID, outDir, seed, tier, key, logs)
-			if harnessOnly {
+			if toolchainCrash(logs) {
+				inconc = append(inconc, "child died inside the Go runtime with no golang.org/x/net frame on any stack: "+key+" (see "+logPath+")")
+			} else if harnessOnly {
 				inconc = append(inconc, "child died inside harness code: "+key+" (see "+logPath+")")
 			} else if known, desc := isKnown(ck.ID, key); known {
 				lines = append(lines, fmt.Sprintf("KNOWN-FINDING: property=%s %s (%s; child process died)", ck.ID, key, desc))
@@ -476,6 +495,9 @@ func runCheck(ck *Check, tier string, seed int64, replay string, keepEvidence bo
 		if len(inconc) > 0 {
 			cov["inconclusive"] = inconc
 		}
+		if raceNote != "" {
+			res.Notes = append(res.Notes, raceNote)
+		}
 		if len(res.Notes) > 0 {
 			cov["notes"] = res.Notes
 		}
@@ -528,6 +550,28 @@ func runCheck(ck *Check, tier string, seed int64, replay string, keepEvidence bo
 		ck.ID, ck.Technique, seed, tier, race, []string{"HELD on what was observed", "VIOLATED", "INCONCLUSIVE"}[verdict],
 		res.Evaluations, res.Distinct, ev, time.Since(start).Seconds())
 	return verdict
+}
+
+// toolchainCrash reports whether a dead child's log shows a crash of the Go runtime or of
+// the ThreadSanitizer runtime that involves no golang.org/x/net code at all.
+func toolchainCrash(logs string) bool {
+	if strings.Contains(logs, "ThreadSanitizer: CHECK failed") || strings.Contains(logs, "FATAL: ThreadSanitizer") {
+		return true
+	}
+	if strings.Contains(logs, "WARNING: DATA RACE") || strings.Contains(logs, "panic: test timed out") {
+		return false
+	}
+	if at := strings.Index(logs, "fatal error:"); at >= 0 || strings.Contains(logs, "SIGSEGV") {
+		if at < 0 {
+			at = strings.Index(logs, "SIGSEGV")
+		}
+		sect := logs[at:]
+		if len(sect) > 60000 {
+			sect = sect[:60000]
+		}
+		return len(frameRe.FindAllStringSubmatch(sect, -1)) == 0
+	}
+	return false
 }
 
 func round1(f float64) float64 { return float64(int(f*10+0.5)) / 10 }
